@@ -98,7 +98,9 @@ func c07Pairs(c *Ctx) {
 			base = c07Client{Listener: gen.Pick(r, []string{"http", "fasthttp"}), Hdr: fmt.Sprintf("2001:db8::%x", r.Range(0, 0xffff))}
 		}
 		baseGroup := chGroup(c07Ranges, base.addr())
-		name := fmt.Sprintf("ok-n3-ttl300-k%dx%d.pipe.test.", i, r.Intn(1<<20))
+		// letters up to z in the name (spelled in another case by the "case" variant); every third
+		// upstream reply is authoritative / validated (AA, AD): the cached copy keeps those flags
+		name := fmt.Sprintf("ok-n3-ttl300%s-kzy%dx%d.pipe.test.", []string{"", "-aa", "-aa-ad"}[i%3], i, r.Intn(1<<20))
 		qt, qc := gen.Pick(r, []uint16{dns.TypeA, dns.TypeAAAA, dns.TypeTXT, dns.TypeMX}), uint16(dns.ClassINET)
 		if i%5 == 2 {
 			// a reply that fits the 64 KiB of a stream transport only thanks to name compression
@@ -125,7 +127,7 @@ func c07Pairs(c *Ctx) {
 		otherType := uint16(dns.TypeSRV)
 		vs := []variant{
 			{"same", base, name, qt, qc, true},
-			{"case", base, c03RandCase(r, strings.ToUpper(name[:4])+name[4:]), qt, qc, true},
+			{"case", base, map[bool]string{true: strings.ToUpper(name), false: c03RandCase(r, strings.ToUpper(name[:4])+name[4:])}[i%2 == 0], qt, qc, true},
 			{"type", base, name, otherType, qc, false},
 			{"class", base, name, qt, dns.ClassCHAOS, false},
 			{"name", base, "x" + name, qt, qc, false},
